@@ -646,6 +646,39 @@ Definition is_dict (h : heap) (v : val) : bool :=
   | _ => false
   end.
 
+Section CombineLoop.
+  Context (rec : heap -> loc -> loc -> option (heap * val)) (bes : list (pyval * val)) (ret : loc).
+  Definition combine_store (h : heap) (k : pyval) (x : val) : option heap :=
+    match lookup h ret with
+    | Some (ODict t es) => Some (upd h ret (ODict t (assoc_set pyval_eqb k x es)))      (* ret[key] = x *)
+    | _ => None
+    end.
+  Fixpoint combine_loop (ces : list (pyval * val)) (h : heap) {struct ces} : option heap :=
+    match ces with
+    | [] => Some h
+    | (k, v) :: r =>
+        match
+          match assoc pyval_eqb k bes with
+          | Some bv =>
+              if is_dict h bv && is_dict h v then
+                match bv, v with
+                | VRef bl, VRef cl =>
+                    match rec h bl cl with
+                    | Some (h1, x) => combine_store h1 k x
+                    | None => None
+                    end
+                | _, _ => None
+                end
+              else combine_store h k v
+          | None => combine_store h k v
+          end
+        with
+        | Some h2 => combine_loop r h2
+        | None => None
+        end
+    end.
+End CombineLoop.
+
 Fixpoint hcombine (d : nat) (h : heap) (base child : loc) {struct d} : option (heap * val) :=
   match d with
   | O => None
@@ -653,34 +686,25 @@ Fixpoint hcombine (d : nat) (h : heap) (base child : loc) {struct d} : option (h
       match lookup h base, lookup h child with
       | Some (ODict _ bes), Some (ODict _ ces) =>
           let ret := length h in
-          let h0 := h ++ [ODict None bes] in
-          match (fix go (ces : list (pyval * val)) (h : heap) {struct ces} : option heap :=
-                   match ces with
-                   | [] => Some h
-                   | (k, v) :: r =>
-                       let store (h : heap) (x : val) : option heap :=
-                         match lookup h ret with
-                         | Some (ODict t es) => go r (upd h ret (ODict t (assoc_set pyval_eqb k x es)))
-                         | _ => None
-                         end in
-                       match assoc pyval_eqb k bes with
-                       | Some bv =>
-                           if is_dict h bv && is_dict h v then
-                             match bv, v with
-                             | VRef bl, VRef cl =>
-                                 match hcombine d' h bl cl with
-                                 | Some (h1, x) => store h1 x
-                                 | None => None
-                                 end
-                             | _, _ => None
-                             end
-                           else store h v
-                       | None => store h v
-                       end
-                   end) ces h0 with
+          match combine_loop (hcombine d') bes ret ces (h ++ [ODict None bes]) with     (* ret = dict(base) *)
           | Some h1 => Some (h1, VRef ret)
           | None => None
           end
       | _, _ => None
       end
+  end.
+
+(* observation for a merge of two literal trees: the merged tree, and whether the inputs changed *)
+Definition run_hcombine (c : atree * atree) : pyval :=
+  match alloc_tree (fst c) [] with
+  | Some (h1, VRef b) =>
+      match alloc_tree (snd c) h1 with
+      | Some (h2, VRef ch) =>
+          match hcombine 64 h2 b ch with
+          | Some (h3, v) => PTuple [snap 64 h3 v; snap 64 h3 (VRef b); snap 64 h3 (VRef ch)]
+          | None => o_str "unmodelled"
+          end
+      | _ => o_str "unmodelled"
+      end
+  | _ => o_str "unmodelled"
   end.
